@@ -16,7 +16,7 @@ LEVEL = "exploration"
 RULE = ("the 14 fuzzy-producing commands x hostile parameter sets x hostile finite inputs (lattice, wild floats 1e-9..1e9, "
         "int64/float64/float32/int32/int16) x shapes rank 1-3 x masks; distinct by (command, n, rank, dtypes, mask class, parameter-"
         "shape class)")
-REQUIRED_COUNTERS = ["range_postconditions", "fuzzy_cells_checked", "quiescent_rechecks"]
+REQUIRED_COUNTERS = ["range_postconditions", "fuzzy_cells_checked", "quiescent_rechecks", "model_runs"]
 ASSUMPTIONS = ["inputs finite, magnitudes in 1e-9..1e9 or the dyadic lattice; control points closer than 1e-9 relative (slope overflow) "
                "are not generated", "parameter sets for which the command raises one of its specific errors are not judged",
                "fuzzy inputs to fuzzy operators lie in [-1,1] (what producers guarantee)"]
@@ -54,6 +54,10 @@ def cases(ctx):
         c["wild"] = wild
         c["consumer"] = rng.choice(CONSUMERS)
         yield c
+    from mpv import models
+    for i in range(ctx.n(300, 15000)):
+        yield {"kind": "model", "model": models.gen_model(rng, n_ops=rng.randint(2, 12), sinks=rng.random() < 0.5, libs="nc" if i % 3 == 0 else "csv",
+                                                            cmds=list(cmdgen.ALL) + sorted(arr.FUZZY_OUTPUT) * 2)}
 
 
 _contract = {"evals": 0, "installed": False, "violations": []}
@@ -121,7 +125,47 @@ def _pclass(params):
     return tuple(out)
 
 
+def run_model(ctx, case):
+    from mpv import models, trace
+    model = case["model"]
+    d = ctx.scratch()
+    try:
+        prog = models.load(model, d)
+    except Exception as e:
+        ctx.dontcare("model does not load: %s" % type(e).__name__)
+        return
+    fuzzy_results = []
+
+    def on_exit(cmd, value):
+        if getattr(cmd, "is_fuzzy", False):
+            ctx.count("range_postconditions")
+            ctx.count("fuzzy_cells_checked", int(getattr(value, "size", 0)))
+            fuzzy_results.append(cmd)
+            bad = _range_bad(value)
+            if bad:
+                ctx.fail("%s:%s:in-model" % (type(cmd).__name__, bad[0]), {"range": bad[1], "command": cmd.result_name})
+
+    trace.start(on_exit=on_exit)
+    trace.attach(prog)
+    try:
+        prog.run()
+    except Exception as e:
+        ctx.dontcare("model raises %s" % type(e).__name__)
+    finally:
+        trace.stop()
+    ctx.count("model_runs")
+    ctx.feature(("model", model.get("libs", "csv"), tuple(sorted(set(type(c).__name__ for c in fuzzy_results)))[:6]))
+    for c in fuzzy_results:     # quiescent re-check after everything downstream ran
+        ctx.count("quiescent_rechecks")
+        bad = _range_bad(c._result)
+        if bad:
+            ctx.fail("%s:%s-after-run:in-model" % (type(c).__name__, bad[0]), {"range": bad[1], "command": c.result_name})
+            break
+
+
 def run_case(ctx, case):
+    if case.get("kind") == "model":
+        return run_model(ctx, case)
     cmd, params = case["cmd"], case["params"]
     inputs = [arr.build(s) for s in case["inputs"]]
     fuzzy_in = cmd in arr.FUZZY_INPUT
